@@ -18,7 +18,7 @@ func init() {
 	prop("C05", []string{"R11", "R12", "R10", "R6", "R7", "R8", "R38", "R54", "R55", "R1g", "R25", "R39"},
 		"returned rows are input rows, unmodified (R7: first positions come from the index; withIndex shares columns; R1g); each occupied table entry contributes exactly once (R8 on the collection loop); entries are distinct keys (R11) and equal keys share a hash (R12, R10); probing is masked by the table's own length (R38); options are consulted (R25); column names are validated before any success return (R39).",
 		"the open-addressing table as an algorithm (same as C04).")
-	prop("C06", []string{"R6", "R42", "R40", "R53", "R13", "R8", "R1a", "R43"},
+	prop("C06", []string{"R6", "R42", "R40", "R53", "R13", "R8", "R1a", "R43", "R68"},
 		"source and destination use the same physical row, result slices are sized by the column's physical length (R42), user functions run once per row of the frame in frame order (R40), every access goes through the index (R6); the destination replaces an existing column in its position or is appended last for frames however derived (R13); nothing else changes (R1a); FilteredApply restores the original index on the result (R43).",
 		"which built-in a name resolves to; result typing by function signature; zero/null fill of unmatched rows (follows from make's zero values plus R42's sizing; argued, not checked).")
 	prop("C07", []string{"R14", "R15", "R21", "R31", "R53", "R1a", "R1x", "R47", "R13", "R40", "R42", "R6"},
